@@ -396,10 +396,17 @@ class BaseWorklist(list):
             if not isinstance(pos, int) or isinstance(pos, bool) or pos < 0:
                 raise ValueError(f"Invalid {pname}: {pos}")
 
+        for pname, count in (("diti_reuse", diti_reuse), ("multi_disp", multi_disp)):
+            if not isinstance(count, (int, numpy.integer)) or isinstance(count, bool) or count < 1:
+                raise ValueError(f"Invalid {pname}: {count}")
+
         if exclude_wells is None:
             exclude_list = []
         else:
             exclude_list = list(exclude_wells)
+            for w in exclude_list:
+                if not isinstance(w, (int, numpy.integer)) or isinstance(w, bool):
+                    raise ValueError(f"Invalid excluded well: {w}")
         if len(exclude_list) > 0:
             # check that all excluded wells fall in the range
             dst_range = set(range(dst_start, dst_end + 1))
